@@ -131,7 +131,15 @@ class C02(DiffProperty):
                                     (hg, [l for l in ided if isglue(l)], "implglue", ["5"])):
             if sub:
                 o, e = vcheck.run_cases(exe, sub, workdir, tag + tagsuffix, env=self.harness_env, args=args)
-                I.update(o.get("I", {}))
+                got = o.get("I", {})
+                # a case that ran into the short time limit is run once more, alone and with a long limit: a loaded machine
+                # must not look like a livelock (a real livelock still times out)
+                late = [l for l in sub if any(t.startswith("F:timeout") for t in (got.get(l.split(None, 1)[0]) or []))]
+                if late and len(args) == 1:
+                    o2, e2_ = vcheck.run_cases(exe, late, workdir, tag + "late" + tagsuffix, env=self.harness_env, args=["30"], shards=min(4, len(late)))
+                    got.update(o2.get("I", {}))
+                    e += e2_
+                I.update(got)
                 errs += e
         M, e2 = vcheck.run_cases(mx, ided, workdir, "model" + tagsuffix)
         res = []
